@@ -924,7 +924,13 @@ class ExcelCompiler:
                         # INDIRECT() can produce addresses we don't already have loaded
                         self._gen_graph(ref_addr)
 
-                    value = self._evaluate(ref_addr)
+                    try:
+                        value = self._evaluate(ref_addr)
+                    except BaseException:
+                        if self.cycles:
+                            # not calculated, and no longer being calculated
+                            cell.wip = False
+                        raise
                 else:
                     self.log.info(
                         f"Cell {cell.address} evaluated to '{value}' ({type(value).__name__})")
